@@ -84,6 +84,8 @@ def scc_links(ck, facts, R):
 
 
 def run(ck, facts, tier):
+    from shared import state
+    state.result_stores(ck, facts, "C10.RESULT-STORES")
     scc_links(ck, facts, "C10.SCC-LINKS")
     cg = CallGraph(facts, ["chalk_solve", "chalk_engine", "chalk_recursive", "chalk_integration", "chalk"])
     R = "C10.CACHE-WRITER"
